@@ -35,6 +35,7 @@ type Case struct {
 	K      int    `json:"k,omitempty"`
 	Pre    bool   `json:"pre,omitempty"`  // the destination already exists (longer, other content, mode 0600)
 	Used   bool   `json:"used,omitempty"` // the hasher was used before
+	Same   bool   `json:"same,omitempty"` // source and destination (two file systems) use the same path string
 }
 
 // "MemFS+user": a MemFS with an identity manager whose current user is not the administrator
@@ -157,6 +158,10 @@ func run(c *vt.Ctx, cs Case, scratch string) (dev *vt.Deviation, srcCounts, dstC
 	}
 	data := content(cs.Size)
 	srcPath, dstPath := srcBase.Join(srcDir, "src"), dstBase.Join(dstDir, "dst")
+	if cs.Same && cs.Src != "OsFS" && cs.Dst != "OsFS" {
+		// two distinct file systems, one path string (the in-memory kinds all work below /w)
+		dstPath = srcPath
+	}
 	if err := srcBase.WriteFile(srcPath, data, 0o600); err != nil {
 		c.Inconclusive("setup: " + err.Error())
 		return
@@ -351,6 +356,7 @@ func TestCheck(t *testing.T) {
 							base := Case{Func: fn, Src: src, Dst: dst, Size: size, Perm: p12, Hasher: hs}
 							base.Pre = fn != "HashFile" && vt.Hash64(fmt.Sprintf("%+v", base))%2 == 0
 							base.Used = hs != "nil" && vt.Hash64(fmt.Sprintf("used %+v", base))%2 == 0
+							base.Same = vt.Hash64(fmt.Sprintf("same %+v", base))%3 == 0
 							dev, sc, dc, _, _ := run(c, base, scratch)
 							plans++
 							if dev != nil {
